@@ -57,7 +57,7 @@ func init() {
 	core.Register(&core.Prop{
 		ID:    "C05",
 		Level: "exploration",
-		Rule: "seeded chart trees (root + 0-3 subcharts, listed/unlisted, depth <= 2; 2-7 template files per chart with 1-3 documents built from 30 template constructs; helpers with same-named defines in several charts; files/, crds/, NOTES.txt; random SubNotes/IncludeCRDs/DisableHooks/IsUpgrade) each rendered >= 20 times: base, repeats from a fresh in-memory load, repeated dry-run installs and ToRenderValues+engine.Render repeats on ONE chart object (templates rewrite elements of default lists in place and pass a trail through .Values), reload from archive / shuffled archive / directory, permuted environment, changed cwd and host files; 18 reach-out probes x 2 load forms; 12 $ref spellings x 4 host-document states x 2 entry points; concurrent renders under the race detector; one strace-monitored batch. " +
+		Rule: "seeded chart trees (root + 0-3 subcharts, listed/unlisted, depth <= 2; 2-7 template files per chart with 1-3 documents built from 30 template constructs; helpers with same-named defines in several charts; files/, crds/, NOTES.txt; random SubNotes/IncludeCRDs/DisableHooks/IsUpgrade and 0, 1 or 2 extra --api-versions entries, printed by the templates through .Capabilities.APIVersions.Has / len) each rendered >= 20 times: base, repeats from a fresh in-memory load, repeated dry-run installs and ToRenderValues+engine.Render repeats on ONE chart object, renders interleaved with client-only renders of an unrelated chart on another configuration with another --api-versions value (incl. a plain dry-run re-using the capabilities cached on the first configuration) (templates rewrite elements of default lists in place and pass a trail through .Values), reload from archive / shuffled archive / directory, permuted environment, changed cwd and host files; 18 reach-out probes x 2 load forms; 12 $ref spellings x 4 host-document states x 2 entry points; concurrent renders under the race detector; one strace-monitored batch. " +
 			"distinct_nontrivial counts distinct chart shapes (subchart listing, depth, flags, template-file / notes / crd / hook buckets, number of construct kinds) of charts with >= 2 template files and (>= 1 map-ranging construct or >= 2 notes/CRD sources), plus one key per reach-out probe and per $ref spelling.",
 		Assumptions: []string{
 			"client-only dry-run action.Install is the `helm template` code path; engine.Render is the engine entry point",
@@ -237,7 +237,7 @@ func post(a *core.Agg) string {
 	if msg := postStrace(a); msg != "" {
 		return msg
 	}
-	for _, k := range []string{"renders_compared", "reloads", "env_permutations", "cwd_permutations", "canary_probes", "reach_out_probes", "schema_validations_with_flipped_host_document", "schema_positive_controls", "concurrent_installs_compared", "concurrent_engine_renders_compared", "engine_renders_compared", "same_object_installs_compared"} {
+	for _, k := range []string{"renders_compared", "reloads", "env_permutations", "cwd_permutations", "canary_probes", "reach_out_probes", "schema_validations_with_flipped_host_document", "schema_positive_controls", "concurrent_installs_compared", "concurrent_engine_renders_compared", "engine_renders_compared", "same_object_installs_compared", "interleaved_renders_compared"} {
 		if a.Stats[k] == 0 {
 			return "monitor counter " + k + " is zero"
 		}
